@@ -64,8 +64,8 @@ def main():
     sha = subprocess.run(["git", "-C", "/repo", "log", "--format=%h %s"], capture_output=True, text=True).stdout.splitlines()
     hooks_commits = [l.split()[0] for l in sha if l.split(" ", 1)[1].startswith("verif:")]
     m = {"version": 1, "setup_cmd": "sh bin/setup.sh",
-         "hooks": {"guard": "verif", "enable": "go build -tags verif (harness build; hook files are add-only and diagnostic)",
-                   "baseline_off_cmd": "cd /repo && go test -vet=off -count=1 ./...",
+         "hooks": {"guard": "verif", "enable": "go build -tags verif (the harness is built with the tag; no hook had to be added to /repo - every observation the properties name is reachable through the public API, internal/route and instrumented handlers)",
+                   "baseline_off_cmd": "python3 /verif/bin/baseline.py --json",
                    "source_commits": hooks_commits, "add_only": True},
          "engines": [{"name": "tlc+harness", "path": "bin/check.py", "serves_properties": sorted(CLAIMS),
                       "kind_free_text": "explicit TLA+ specifications (spec/*.tla) model-checked by TLC; TLC-generated behaviours replayed on the real code by the Go harness (harness/); traces recorded from the real code validated by TLC against the property layer (spec/*Trace.tla)"}],
